@@ -2376,6 +2376,29 @@ def unfold_reduce(stmts, counter):
                 setattr(st, fld, new)
                 changed = changed or ch
         v = st.value if isinstance(st, (ast.Assign, ast.Return)) else None
+        # a reduce nested in the statement's value (evaluated unconditionally, once; everything evaluated before it is a plain name / path):
+        # it gets a name of its own first and is unfolded on the next round
+        if v is not None and not (isinstance(v, ast.Call) and U(v.func) in ("functools.reduce", "reduce")):
+            from .inliner import _hoistable_calls
+            nested = [c for c in _hoistable_calls(v, allow_top=False) if U(c.func) in ("functools.reduce", "reduce") and 2 <= len(c.args) <= 3 and not c.keywords]
+            others = [c for c in ast.walk(v) if isinstance(c, ast.Call) and not any(c is x or any(c is y for y in ast.walk(x)) for x in nested) and c is not v]
+            if len(nested) == 1 and not others and (not isinstance(v, ast.Call) or all(_cheap(a) or a is nested[0] for a in list(v.args) + [k.value for k in v.keywords])):
+                counter[0] += 1
+                tmp = f"_red{counter[0]}"
+                out.append(ast.copy_location(ast.Assign(targets=[ast.Name(id=tmp, ctx=ast.Store())], value=nested[0], lineno=st.lineno), st))
+                target_call = nested[0]
+
+                class H(ast.NodeTransformer):
+                    def visit_Call(self, n):
+                        if n is target_call:
+                            return ast.Name(id=tmp, ctx=ast.Load())
+                        self.generic_visit(n)
+                        return n
+                st = H().visit(st)
+                ast.fix_missing_locations(st)
+                out.append(st)
+                changed = True
+                continue
         if isinstance(v, ast.Call) and U(v.func) in ("functools.reduce", "reduce") and 2 <= len(v.args) <= 3 and not v.keywords:
             F, IT = v.args[0], v.args[1]
             init = v.args[2] if len(v.args) == 3 else None
@@ -2404,6 +2427,97 @@ def unfold_reduce(stmts, counter):
             continue
         out.append(st)
     return out, changed
+
+
+def loops_over_generator_expressions(fnode, counter):
+    """for x in (E(y) for y in IT [if C]): BODY   ->   for y in IT: [if C:] x = E(y); BODY       (one generator, names of y fresh w.r.t. BODY;
+    BODY without `continue` when there is a filter, so that no iteration is skipped differently)"""
+    changed = False
+
+    def rewrite(stmts):
+        nonlocal changed
+        out = []
+        for st in stmts:
+            for fld in ("body", "orelse", "finalbody"):
+                sub = getattr(st, fld, None)
+                if isinstance(sub, list) and sub and isinstance(sub[0], ast.stmt) and not isinstance(st, (ast.FunctionDef, ast.AsyncFunctionDef, ast.ClassDef)):
+                    setattr(st, fld, rewrite(sub))
+            if isinstance(st, ast.Try):
+                for h in st.handlers:
+                    h.body = rewrite(h.body)
+            if isinstance(st, ast.For) and isinstance(st.iter, (ast.GeneratorExp, ast.ListComp)) and len(st.iter.generators) == 1 and not st.orelse and isinstance(st.target, ast.Name):
+                g = st.iter.generators[0]
+                inner_names = {x.id for x in ast.walk(g.target) if isinstance(x, ast.Name)}
+                body_names = {x.id for b in st.body for x in ast.walk(b) if isinstance(x, ast.Name)}
+                others = {x.id for x in ast.walk(fnode) if isinstance(x, ast.Name)} - inner_names
+                mentioned_elsewhere = any(isinstance(x, ast.Name) and x.id in inner_names for x in ast.walk(fnode) if not any(x is y for y in ast.walk(st.iter)))
+                has_continue = any(isinstance(x, ast.Continue) for b in st.body for x in ast.walk(b))
+                if not g.is_async and not (g.ifs and has_continue) and st.target.id not in inner_names:
+                    # the comprehension's variables become loop variables of the function: fresh names, so that nothing else is captured
+                    k = counter[0]
+                    counter[0] += 1
+                    ren = _Sub({}, {n_: f"{n_}__l{k}" for n_ in inner_names})
+                    elt = ren.visit(copy.deepcopy(st.iter.elt))
+                    tgt = ren.visit(copy.deepcopy(g.target))
+                    ifs = [ren.visit(copy.deepcopy(c)) for c in g.ifs]
+                    bind = ast.Assign(targets=[ast.Name(id=st.target.id, ctx=ast.Store())], value=elt, lineno=st.lineno, col_offset=0)
+                    body = [bind] + st.body
+                    for c in reversed(ifs):
+                        body = [ast.If(test=c, body=body, orelse=[], lineno=st.lineno, col_offset=0)]
+                    new = ast.For(target=tgt, iter=g.iter, body=body, orelse=[], lineno=st.lineno, col_offset=0)
+                    ast.fix_missing_locations(new)
+                    out.append(new)
+                    changed = True
+                    continue
+            out.append(st)
+        return out
+    fnode.body = rewrite(fnode.body)
+    return changed
+
+
+def star_unpack_of_lists(fnode):
+    """first, *rest = L   with L a parameter annotated as a list (or a local bound once to a list display / list(..) / comprehension)
+    ->  first = L[0]; rest = L[1:]        (same values for a list; an empty list raises either way, IndexError instead of ValueError)"""
+    changed = False
+    a = fnode.args
+    listy = set()
+    for p in a.posonlyargs + a.args + a.kwonlyargs:
+        if p.annotation is not None and U(p.annotation).split("[")[0] in ("list", "List", "typing.List"):
+            listy.add(p.arg)
+    binds = {}
+    for x in ast.walk(fnode):
+        if isinstance(x, ast.Name) and isinstance(x.ctx, (ast.Store, ast.Del)):
+            binds[x.id] = binds.get(x.id, 0) + 1
+    for x in walk_own(fnode):
+        if isinstance(x, ast.Assign) and len(x.targets) == 1 and isinstance(x.targets[0], ast.Name) and binds.get(x.targets[0].id) == 1 \
+                and (isinstance(x.value, (ast.List, ast.ListComp)) or (isinstance(x.value, ast.Call) and U(x.value.func) in ("list", "sorted"))):
+            listy.add(x.targets[0].id)
+    listy = {n for n in listy if binds.get(n, 0) <= 1}
+
+    def rewrite(stmts):
+        nonlocal changed
+        out = []
+        for st in stmts:
+            for fld in ("body", "orelse", "finalbody"):
+                sub = getattr(st, fld, None)
+                if isinstance(sub, list) and sub and isinstance(sub[0], ast.stmt) and not isinstance(st, (ast.FunctionDef, ast.AsyncFunctionDef, ast.ClassDef)):
+                    setattr(st, fld, rewrite(sub))
+            if isinstance(st, ast.Assign) and len(st.targets) == 1 and isinstance(st.targets[0], (ast.Tuple, ast.List)) and isinstance(st.value, ast.Name) and st.value.id in listy \
+                    and len(st.targets[0].elts) == 2 and isinstance(st.targets[0].elts[0], ast.Name) and isinstance(st.targets[0].elts[1], ast.Starred) \
+                    and isinstance(st.targets[0].elts[1].value, ast.Name) and st.value.id not in (st.targets[0].elts[0].id, st.targets[0].elts[1].value.id):
+                # guarded by a preceding refusal of the empty list? either way both forms raise on an empty list
+                L = st.value.id
+                h_, r_ = st.targets[0].elts[0].id, st.targets[0].elts[1].value.id
+                out.append(ast.copy_location(ast.Assign(targets=[ast.Name(id=h_, ctx=ast.Store())], value=ast.Subscript(value=ast.Name(id=L, ctx=ast.Load()), slice=ast.Constant(value=0), ctx=ast.Load()), lineno=st.lineno), st))
+                out.append(ast.copy_location(ast.Assign(targets=[ast.Name(id=r_, ctx=ast.Store())], value=ast.Subscript(value=ast.Name(id=L, ctx=ast.Load()), slice=ast.Slice(lower=ast.Constant(value=1), upper=None, step=None), ctx=ast.Load()), lineno=st.lineno), st))
+                changed = True
+                continue
+            out.append(st)
+        return out
+    fnode.body = rewrite(fnode.body)
+    if changed:
+        ast.fix_missing_locations(fnode)
+    return changed
 
 
 # --------------------------------------------------------------------------------------------------- deferred raise
@@ -2585,6 +2699,12 @@ def partial_evaluate(repo, max_rounds=8):
                 steps.append("reduce")
                 from .normalize import _Synonyms
                 f.node = _Synonyms().visit(f.node)          # acc = operator.add(acc, x)  ->  acc = acc + x
+            if steps and loops_over_generator_expressions(f.node, counter):
+                ch = True
+                steps.append("genexp-loops")
+            if steps and star_unpack_of_lists(f.node):
+                ch = True
+                steps.append("star-unpack")
             if inline_expression_helpers(repo, f):
                 ch = True
                 steps.append("helpers")
